@@ -23,6 +23,8 @@ type Case struct {
 	Limit  int           `json:"limit"`
 	Passes int           `json:"passes"`
 	Chosen []string      `json:"chosencases,omitempty"`
+	// EmptyChosen: the option is written, but as an empty list (chosencases: []) — no filter
+	EmptyChosen bool `json:"chosencases_empty_list,omitempty"`
 	Text   string        `json:"text,omitempty"`
 }
 
@@ -45,6 +47,8 @@ func run(c Case, path string, preload bool, max int) outcome {
 			cc = append(cc, s)
 		}
 		conf["chosencases"] = cc
+	} else if c.EmptyChosen {
+		conf["chosencases"] = []any{}
 	}
 	p, err := vkit.NewProvider(conf)
 	if err != nil {
@@ -126,6 +130,9 @@ func runCase(res *vkit.Result, c Case) {
 		max = 2*len(match) + 3
 	}
 	sel := "all"
+	if c.EmptyChosen && len(c.Chosen) == 0 {
+		sel = "chosencases-empty-list"
+	}
 	if len(c.Chosen) > 0 {
 		sel = "chosencases"
 		if len(match) == 0 {
@@ -180,7 +187,7 @@ func runCase(res *vkit.Result, c Case) {
 	}
 	res.Count("pairs_"+sel, 1)
 	res.Count("ammo_compared", int64(len(off.items)))
-	res.Eval(c.Text+fmt.Sprint(c.Limit, c.Passes, c.Chosen), len(pass) >= 2)
+	res.Eval(c.Text+fmt.Sprint(c.Limit, c.Passes, c.Chosen, c.EmptyChosen), len(pass) >= 2)
 	if c.File.Layout.Seed%300 == 0 {
 		res.Sample(map[string]any{"format": c.File.Format, "limit": c.Limit, "passes": c.Passes, "chosencases": c.Chosen, "file_text": c.Text,
 			"delivered_stream": len(off.items), "delivered_preload": len(on.items), "end_stream": off.class, "end_preload": on.class})
@@ -205,6 +212,8 @@ func cancelledEnding(res *vkit.Result, c Case) {
 				cc = append(cc, s)
 			}
 			conf["chosencases"] = cc
+		} else if c.EmptyChosen {
+			conf["chosencases"] = []any{}
 		}
 		p, err := vkit.NewProvider(conf)
 		if err != nil {
@@ -262,6 +271,7 @@ func gen(rng *rand.Rand) Case {
 	c := Case{File: f, Limit: []int{0, 0, 1, 2, 3, 5, 9}[rng.Intn(7)], Passes: []int{0, 1, 1, 2, 3}[rng.Intn(5)]}
 	switch rng.Intn(4) {
 	case 0:
+		c.EmptyChosen = rng.Intn(2) == 0
 	case 1:
 		c.Chosen = []string{"zzz-not-there"}
 	default:
@@ -291,6 +301,8 @@ func seeds() []Case {
 		{File: mk([]string{"a", "b"}), Limit: 1, Passes: 0, Chosen: []string{"zzz"}},
 		{File: mk([]string{"a", "b", "c"}), Limit: 2, Passes: 1},
 		{File: mk([]string{"a"}), Limit: 0, Passes: 2},
+		{File: mk([]string{"a", "b", "c", "a", "b"}), Limit: 3, Passes: 2, EmptyChosen: true},
+		{File: mk([]string{"a", "b", "c"}), Limit: 4, Passes: 0, EmptyChosen: true},
 	}
 }
 
